@@ -388,7 +388,11 @@ func genMatch(rt *rapid.T, call string) string {
 		kind = "searchres"
 	}
 	for {
-		b, _ := common.RefEncode(common.GenFrame(rt, kind, "ldata-ind-app"))
+		f := common.GenFrame(rt, kind, "ldata-ind-app")
+		if kind == "descrres" {
+			f.Extra = common.GenValidDIBs(rt)
+		}
+		b, _ := common.RefEncode(f)
 		var s knxnet.Service
 		if _, err := knxnet.Unpack(b, &s); err == nil && len(b) <= 1024 {
 			return hex.EncodeToString(b)
